@@ -10,7 +10,21 @@ CONSTANTS
   Blindable = {"capella", "deneb"}
   Outcomes = {"full"}
   Scripts = {"full", "err", "never", "errfull"}
-  GraffitiOuts = {"ok"}
+  GraffitiOuts = {"static"}
+  PrepOuts = {"ok", "err", "empty"}
+  CfgFilter = "nonodeclient"
+  Dslots <- AllDslots
   MaxCalls = 3
+  NDuties = 1
+  SlotGaps = {1}
+  LaterAllChoices = {{1}}
+  LaterVersions = {"deneb"}
+  LaterOutcomes = {"full"}
+  LaterDslots = {0}
+  LaterScripts = {"full"}
+  LaterGraffitiOuts = {"static"}
+  LaterPrepOuts = {"ok"}
+  LaterNodeClientOuts = {"ok"}
+  LaterStepOuts = {"ok"}
 INVARIANTS Emit
 CHECK_DEADLOCK FALSE
